@@ -474,6 +474,7 @@ class PathController:
         self._gp_seen = set()
         self.branch_filter = None
         self.filter_log = []
+        self.known = {}
         self.stats = {'branch_queries': 0, 'forks': 0, 'forced': 0, 'replayed': 0}
         self._solver = None
 
@@ -488,6 +489,7 @@ class PathController:
         self._asserted_defs = set()
         self.live_points = None
         self.filter_log = []
+        self.known = {}
         for a in self.assumptions:
             self._assert(a)
 
@@ -680,6 +682,18 @@ class PathController:
             return None
         return None
 
+    def implied(self, cond, timeout_ms=1000):
+        """True if cond follows from the path condition, False if its negation does, None otherwise (cheap: evaluation
+        witnesses, normalised stage and one short solver call per side)"""
+        old = self.branch_timeout_ms
+        self.branch_timeout_ms = min(old, timeout_ms) if old else timeout_ms
+        try:
+            if self._check(S.bnot(cond)) == z3.unsat: return True
+            if self._check(cond) == z3.unsat: return False
+        finally:
+            self.branch_timeout_ms = old
+        return None
+
     def sign_of(self, x, it):
         """+1 if x >= 0 is implied by the path condition, -1 if x <= 0 is implied, else 0 (no fork).
         Cheap: normalised stage, then a short full query."""
@@ -694,8 +708,30 @@ class PathController:
             self.branch_timeout_ms = old
         return 0
 
+    @staticmethod
+    def _strip_linear(v):
+        """v = f(x) with f built from +,-,* by constants, width changes: return x (the node worth enumerating)"""
+        while True:
+            if v.op in ('irew',):
+                v = v.args[0]; continue
+            if v.op == 'imod' and v.args[1].op == 'iconst':
+                v = v.args[0]; continue
+            if v.op in ('imul', 'iadd', 'isub') and (v.args[0].op == 'iconst') != (v.args[1].op == 'iconst'):
+                v = v.args[1] if v.args[0].op == 'iconst' else v.args[0]; continue
+            return v
+
     def concretize(self, v, it):
         """enumerate the feasible values of symbolic integer v (fork per value)"""
+        k = self.known.get(v.id)
+        if k is not None: return k
+        base = self._strip_linear(v)
+        if base is not v and base.sort == 'I' and base.id not in self.known:
+            self.concretize(base, it)       # fixes the underlying quantity first; v then has a single value
+        r = self._concretize(v, it)
+        self.known[v.id] = r
+        return r
+
+    def _concretize(self, v, it):
         if self.pos < len(self.prefix):
             d = self.prefix[self.pos]
             self.pos += 1
@@ -801,6 +837,12 @@ def prove(z, pc_nodes, claim, timeout_ms=60000, name='', want_model=True):
     z.queries += 1; z.solver_time += time.time() - t
     if ok:
         return 'proved', None
+    # prefix stages: many claims follow from the harness assumptions alone (they come first in the path condition)
+    if len(pc_nodes) > 12:
+        for k in (0, 8):
+            r, s = _solve(z, list(pc_nodes[:k]) + [neg], min(2000, timeout_ms))
+            if r == z3.unsat:
+                return 'proved', None
     sl, dropped = slice_context(z, pc_nodes, neg)
     if dropped:
         r, s = _solve(z, sl + [neg], max(1000, timeout_ms // 3))
